@@ -152,35 +152,7 @@ fn check_bft_sound(n: usize) {
     }
 }
 
-// @verif property=C15 class=bounded bound="witness sets of size 0..=7; trust any f64 in [0,1] or absent; all configs" fns=CloseGroupValidator::validate_membership,CloseGroupValidator::validate_bft uses=check_bft_sound,any_cfg,any_responses,any_trust tier=quick panic=violation
-#[kani::proof]
-#[kani::stub(std::time::Instant::now, stub_instant_now)]
-#[kani::stub(std::time::SystemTime::now, stub_system_now)]
-#[kani::stub(std::hash::RandomState::new, stub_random_state)]
-#[kani::stub(CloseGroupValidator::count_confirming_regions, contract_stub_regions)]
-#[kani::stub(CloseGroupValidator::detect_collusion_indicators, contract_stub_collusion)]
-#[kani::unwind(12)]
-fn c15_bft_soundness_7() {
-    let mut n = 0;
-    while n <= 7 {
-        check_bft_sound(n);
-        n += 1;
-    }
-}
 
-// @verif property=C15 class=bounded bound="witness sets of size 8..=10" fns=CloseGroupValidator::validate_membership,CloseGroupValidator::validate_bft uses=check_bft_sound,any_cfg,any_responses,any_trust tier=thorough panic=violation
-#[kani::proof]
-#[kani::stub(std::time::Instant::now, stub_instant_now)]
-#[kani::stub(std::time::SystemTime::now, stub_system_now)]
-#[kani::stub(std::hash::RandomState::new, stub_random_state)]
-#[kani::stub(CloseGroupValidator::count_confirming_regions, contract_stub_regions)]
-#[kani::stub(CloseGroupValidator::detect_collusion_indicators, contract_stub_collusion)]
-#[kani::unwind(12)]
-fn c15_bft_soundness_10() {
-    check_bft_sound(8);
-    check_bft_sound(9);
-    check_bft_sound(10);
-}
 
 // ---- f liars among 3f+1 trusted witnesses cannot force acceptance -----------------------
 fn check_f_liars(f: usize) {
@@ -210,30 +182,7 @@ fn check_f_liars(f: usize) {
     let _ = &mut rs;
 }
 
-// @verif property=C15 class=bounded bound="f in {1,2} (4 and 7 trusted witnesses)" fns=CloseGroupValidator::validate_membership,CloseGroupValidator::validate_bft uses=check_f_liars,any_cfg,any_responses tier=quick panic=violation
-#[kani::proof]
-#[kani::stub(std::time::Instant::now, stub_instant_now)]
-#[kani::stub(std::time::SystemTime::now, stub_system_now)]
-#[kani::stub(std::hash::RandomState::new, stub_random_state)]
-#[kani::stub(CloseGroupValidator::count_confirming_regions, contract_stub_regions)]
-#[kani::stub(CloseGroupValidator::detect_collusion_indicators, contract_stub_collusion)]
-#[kani::unwind(12)]
-fn c15_f_liars_1_2() {
-    check_f_liars(1);
-    check_f_liars(2);
-}
 
-// @verif property=C15 class=bounded bound="f = 3 (10 trusted witnesses)" fns=CloseGroupValidator::validate_membership,CloseGroupValidator::validate_bft uses=check_f_liars,any_cfg,any_responses tier=thorough panic=violation
-#[kani::proof]
-#[kani::stub(std::time::Instant::now, stub_instant_now)]
-#[kani::stub(std::time::SystemTime::now, stub_system_now)]
-#[kani::stub(std::hash::RandomState::new, stub_random_state)]
-#[kani::stub(CloseGroupValidator::count_confirming_regions, contract_stub_regions)]
-#[kani::stub(CloseGroupValidator::detect_collusion_indicators, contract_stub_collusion)]
-#[kani::unwind(12)]
-fn c15_f_liars_3() {
-    check_f_liars(3);
-}
 
 // ---- normal mode: acceptance needs the confirming share of witness trust ----------------
 fn check_normal(n: usize) {
@@ -271,21 +220,6 @@ fn check_normal(n: usize) {
     }
 }
 
-// @verif property=C15 class=bounded bound="witness sets of size 0..=6; trust any f64 in [0,1] or absent" fns=CloseGroupValidator::validate_membership,CloseGroupValidator::validate_trust_weighted uses=check_normal,any_cfg,any_responses,any_trust tier=quick panic=violation
-#[kani::proof]
-#[kani::stub(std::time::Instant::now, stub_instant_now)]
-#[kani::stub(std::time::SystemTime::now, stub_system_now)]
-#[kani::stub(std::hash::RandomState::new, stub_random_state)]
-#[kani::stub(CloseGroupValidator::count_confirming_regions, contract_stub_regions)]
-#[kani::stub(CloseGroupValidator::detect_collusion_indicators, contract_stub_collusion)]
-#[kani::unwind(12)]
-fn c15_normal_mode_6() {
-    let mut n = 0;
-    while n <= 6 {
-        check_normal(n);
-        n += 1;
-    }
-}
 
 // ---- turning a confirmation into a denial never turns a rejection into an acceptance ----
 fn check_monotone(n: usize, attack: bool) {
@@ -310,22 +244,6 @@ fn check_monotone(n: usize, attack: bool) {
     }
 }
 
-// @verif property=C15 class=bounded bound="witness sets of size 1..=5, both modes" fns=CloseGroupValidator::validate_membership uses=check_monotone,any_cfg,any_responses,any_trust tier=quick panic=violation
-#[kani::proof]
-#[kani::stub(std::time::Instant::now, stub_instant_now)]
-#[kani::stub(std::time::SystemTime::now, stub_system_now)]
-#[kani::stub(std::hash::RandomState::new, stub_random_state)]
-#[kani::stub(CloseGroupValidator::count_confirming_regions, contract_stub_regions)]
-#[kani::stub(CloseGroupValidator::detect_collusion_indicators, contract_stub_collusion)]
-#[kani::unwind(12)]
-fn c15_monotone_5() {
-    let mut n = 1;
-    while n <= 5 {
-        check_monotone(n, true);
-        check_monotone(n, false);
-        n += 1;
-    }
-}
 
 // ---- completeness: unanimous confirmation by enough trusted, spread witnesses is accepted ----
 fn check_complete(n: usize, attack: bool) {
@@ -351,22 +269,6 @@ fn check_complete(n: usize, attack: bool) {
     assert!(res.is_valid, "C15/complete/unanimous_trusted_spread_confirmation_is_accepted");
 }
 
-// @verif property=C15 class=bounded bound="witness sets of size 1..=7, both modes" fns=CloseGroupValidator::validate_membership uses=check_complete,any_cfg,any_responses,any_trust tier=quick panic=violation
-#[kani::proof]
-#[kani::stub(std::time::Instant::now, stub_instant_now)]
-#[kani::stub(std::time::SystemTime::now, stub_system_now)]
-#[kani::stub(std::hash::RandomState::new, stub_random_state)]
-#[kani::stub(CloseGroupValidator::count_confirming_regions, contract_stub_regions)]
-#[kani::stub(CloseGroupValidator::detect_collusion_indicators, contract_stub_collusion)]
-#[kani::unwind(12)]
-fn c15_completeness_7() {
-    let mut n = 1;
-    while n <= 7 {
-        check_complete(n, true);
-        check_complete(n, false);
-        n += 1;
-    }
-}
 
 // ---- callee contract: detect_collusion_indicators ---------------------------------------
 fn check_collusion(n: usize) {
@@ -401,18 +303,165 @@ fn check_collusion(n: usize) {
     // (checked on a copy with the same latencies)
 }
 
-// @verif property=C15 class=bounded bound="0..=5 witnesses" fns=CloseGroupValidator::detect_collusion_indicators uses=check_collusion,any_responses tier=quick,thorough panic=violation
-#[kani::proof]
-#[kani::stub(std::time::Instant::now, stub_instant_now)]
-#[kani::stub(std::hash::RandomState::new, stub_random_state)]
-#[kani::unwind(12)]
-fn c15_collusion_contract_5() {
-    let mut n = 0;
-    while n <= 5 {
-        check_collusion(n);
-        n += 1;
-    }
+
+
+macro_rules! c15_harness {
+    ($name:ident, $uw:expr, $body:expr) => {
+        #[kani::proof]
+        #[kani::stub(std::time::Instant::now, stub_instant_now)]
+        #[kani::stub(std::time::SystemTime::now, stub_system_now)]
+        #[kani::stub(std::hash::RandomState::new, stub_random_state)]
+        #[kani::stub(CloseGroupValidator::count_confirming_regions, contract_stub_regions)]
+        #[kani::stub(CloseGroupValidator::detect_collusion_indicators, contract_stub_collusion)]
+        #[kani::unwind($uw)]
+        fn $name() {
+            $body;
+        }
+    };
 }
+macro_rules! c15_collusion_harness {
+    ($name:ident, $uw:expr, $n:expr) => {
+        #[kani::proof]
+        #[kani::stub(std::time::Instant::now, stub_instant_now)]
+        #[kani::stub(std::hash::RandomState::new, stub_random_state)]
+        #[kani::unwind($uw)]
+        fn $name() {
+            check_collusion($n);
+        }
+    };
+}
+// @verif property=C15 class=bounded bound="witness sets of size 0; trust any f64 in [0,1] or absent; all configurations" fns=CloseGroupValidator::validate_membership,CloseGroupValidator::validate_bft uses=check_bft_sound,any_cfg,any_responses,any_trust,any_response,mk_validator,c15_harness tier=quick,thorough panic=violation
+c15_harness!(c15_bft_soundness_0, 3, check_bft_sound(0));
+// @verif property=C15 class=bounded bound="witness sets of size 1; trust any f64 in [0,1] or absent; all configurations" fns=CloseGroupValidator::validate_membership,CloseGroupValidator::validate_bft uses=check_bft_sound,any_cfg,any_responses,any_trust,any_response,mk_validator,c15_harness tier=quick,thorough panic=violation
+c15_harness!(c15_bft_soundness_1, 4, check_bft_sound(1));
+// @verif property=C15 class=bounded bound="witness sets of size 2; trust any f64 in [0,1] or absent; all configurations" fns=CloseGroupValidator::validate_membership,CloseGroupValidator::validate_bft uses=check_bft_sound,any_cfg,any_responses,any_trust,any_response,mk_validator,c15_harness tier=thorough panic=violation
+c15_harness!(c15_bft_soundness_2, 5, check_bft_sound(2));
+// @verif property=C15 class=bounded bound="witness sets of size 3; trust any f64 in [0,1] or absent; all configurations" fns=CloseGroupValidator::validate_membership,CloseGroupValidator::validate_bft uses=check_bft_sound,any_cfg,any_responses,any_trust,any_response,mk_validator,c15_harness tier=quick,thorough panic=violation
+c15_harness!(c15_bft_soundness_3, 6, check_bft_sound(3));
+// @verif property=C15 class=bounded bound="witness sets of size 4; trust any f64 in [0,1] or absent; all configurations" fns=CloseGroupValidator::validate_membership,CloseGroupValidator::validate_bft uses=check_bft_sound,any_cfg,any_responses,any_trust,any_response,mk_validator,c15_harness tier=quick,thorough panic=violation
+c15_harness!(c15_bft_soundness_4, 7, check_bft_sound(4));
+// @verif property=C15 class=bounded bound="witness sets of size 5; trust any f64 in [0,1] or absent; all configurations" fns=CloseGroupValidator::validate_membership,CloseGroupValidator::validate_bft uses=check_bft_sound,any_cfg,any_responses,any_trust,any_response,mk_validator,c15_harness tier=thorough panic=violation
+c15_harness!(c15_bft_soundness_5, 8, check_bft_sound(5));
+// @verif property=C15 class=bounded bound="witness sets of size 6; trust any f64 in [0,1] or absent; all configurations" fns=CloseGroupValidator::validate_membership,CloseGroupValidator::validate_bft uses=check_bft_sound,any_cfg,any_responses,any_trust,any_response,mk_validator,c15_harness tier=thorough panic=violation
+c15_harness!(c15_bft_soundness_6, 9, check_bft_sound(6));
+// @verif property=C15 class=bounded bound="witness sets of size 7; trust any f64 in [0,1] or absent; all configurations" fns=CloseGroupValidator::validate_membership,CloseGroupValidator::validate_bft uses=check_bft_sound,any_cfg,any_responses,any_trust,any_response,mk_validator,c15_harness tier=thorough panic=violation
+c15_harness!(c15_bft_soundness_7, 10, check_bft_sound(7));
+// @verif property=C15 class=bounded bound="witness sets of size 8; trust any f64 in [0,1] or absent; all configurations" fns=CloseGroupValidator::validate_membership,CloseGroupValidator::validate_bft uses=check_bft_sound,any_cfg,any_responses,any_trust,any_response,mk_validator,c15_harness tier=thorough panic=violation
+c15_harness!(c15_bft_soundness_8, 11, check_bft_sound(8));
+// @verif property=C15 class=bounded bound="witness sets of size 9; trust any f64 in [0,1] or absent; all configurations" fns=CloseGroupValidator::validate_membership,CloseGroupValidator::validate_bft uses=check_bft_sound,any_cfg,any_responses,any_trust,any_response,mk_validator,c15_harness tier=thorough panic=violation
+c15_harness!(c15_bft_soundness_9, 12, check_bft_sound(9));
+// @verif property=C15 class=bounded bound="witness sets of size 10; trust any f64 in [0,1] or absent; all configurations" fns=CloseGroupValidator::validate_membership,CloseGroupValidator::validate_bft uses=check_bft_sound,any_cfg,any_responses,any_trust,any_response,mk_validator,c15_harness tier=thorough panic=violation
+c15_harness!(c15_bft_soundness_10, 13, check_bft_sound(10));
+// @verif property=C15 class=bounded bound="f = 1: 4 trusted witnesses, at most 1 confirm" fns=CloseGroupValidator::validate_membership,CloseGroupValidator::validate_bft uses=check_f_liars,any_cfg,any_responses,any_trust,any_response,mk_validator,c15_harness tier=quick,thorough panic=violation
+c15_harness!(c15_f_liars_1, 7, check_f_liars(1));
+// @verif property=C15 class=bounded bound="f = 2: 7 trusted witnesses, at most 2 confirm" fns=CloseGroupValidator::validate_membership,CloseGroupValidator::validate_bft uses=check_f_liars,any_cfg,any_responses,any_trust,any_response,mk_validator,c15_harness tier=thorough panic=violation
+c15_harness!(c15_f_liars_2, 10, check_f_liars(2));
+// @verif property=C15 class=bounded bound="f = 3: 10 trusted witnesses, at most 3 confirm" fns=CloseGroupValidator::validate_membership,CloseGroupValidator::validate_bft uses=check_f_liars,any_cfg,any_responses,any_trust,any_response,mk_validator,c15_harness tier=thorough panic=violation
+c15_harness!(c15_f_liars_3, 13, check_f_liars(3));
+// @verif property=C15 class=bounded bound="witness sets of size 0; trust any f64 in [0,1] or absent" fns=CloseGroupValidator::validate_membership,CloseGroupValidator::validate_trust_weighted uses=check_normal,any_cfg,any_responses,any_trust,any_response,mk_validator,c15_harness tier=quick,thorough panic=violation
+c15_harness!(c15_normal_mode_0, 3, check_normal(0));
+// @verif property=C15 class=bounded bound="witness sets of size 1; trust any f64 in [0,1] or absent" fns=CloseGroupValidator::validate_membership,CloseGroupValidator::validate_trust_weighted uses=check_normal,any_cfg,any_responses,any_trust,any_response,mk_validator,c15_harness tier=quick,thorough panic=violation
+c15_harness!(c15_normal_mode_1, 4, check_normal(1));
+// @verif property=C15 class=bounded bound="witness sets of size 2; trust any f64 in [0,1] or absent" fns=CloseGroupValidator::validate_membership,CloseGroupValidator::validate_trust_weighted uses=check_normal,any_cfg,any_responses,any_trust,any_response,mk_validator,c15_harness tier=quick,thorough panic=violation
+c15_harness!(c15_normal_mode_2, 5, check_normal(2));
+// @verif property=C15 class=bounded bound="witness sets of size 3; trust any f64 in [0,1] or absent" fns=CloseGroupValidator::validate_membership,CloseGroupValidator::validate_trust_weighted uses=check_normal,any_cfg,any_responses,any_trust,any_response,mk_validator,c15_harness tier=quick,thorough panic=violation
+c15_harness!(c15_normal_mode_3, 6, check_normal(3));
+// @verif property=C15 class=bounded bound="witness sets of size 4; trust any f64 in [0,1] or absent" fns=CloseGroupValidator::validate_membership,CloseGroupValidator::validate_trust_weighted uses=check_normal,any_cfg,any_responses,any_trust,any_response,mk_validator,c15_harness tier=thorough panic=violation
+c15_harness!(c15_normal_mode_4, 7, check_normal(4));
+// @verif property=C15 class=bounded bound="witness sets of size 5; trust any f64 in [0,1] or absent" fns=CloseGroupValidator::validate_membership,CloseGroupValidator::validate_trust_weighted uses=check_normal,any_cfg,any_responses,any_trust,any_response,mk_validator,c15_harness tier=thorough panic=violation
+c15_harness!(c15_normal_mode_5, 8, check_normal(5));
+// @verif property=C15 class=bounded bound="witness sets of size 6; trust any f64 in [0,1] or absent" fns=CloseGroupValidator::validate_membership,CloseGroupValidator::validate_trust_weighted uses=check_normal,any_cfg,any_responses,any_trust,any_response,mk_validator,c15_harness tier=thorough panic=violation
+c15_harness!(c15_normal_mode_6, 9, check_normal(6));
+// @verif property=C15 class=bounded bound="witness sets of size 7; trust any f64 in [0,1] or absent" fns=CloseGroupValidator::validate_membership,CloseGroupValidator::validate_trust_weighted uses=check_normal,any_cfg,any_responses,any_trust,any_response,mk_validator,c15_harness tier=thorough panic=violation
+c15_harness!(c15_normal_mode_7, 10, check_normal(7));
+// @verif property=C15 class=bounded bound="witness sets of size 8; trust any f64 in [0,1] or absent" fns=CloseGroupValidator::validate_membership,CloseGroupValidator::validate_trust_weighted uses=check_normal,any_cfg,any_responses,any_trust,any_response,mk_validator,c15_harness tier=thorough panic=violation
+c15_harness!(c15_normal_mode_8, 11, check_normal(8));
+// @verif property=C15 class=bounded bound="witness sets of size 9; trust any f64 in [0,1] or absent" fns=CloseGroupValidator::validate_membership,CloseGroupValidator::validate_trust_weighted uses=check_normal,any_cfg,any_responses,any_trust,any_response,mk_validator,c15_harness tier=thorough panic=violation
+c15_harness!(c15_normal_mode_9, 12, check_normal(9));
+// @verif property=C15 class=bounded bound="witness sets of size 10; trust any f64 in [0,1] or absent" fns=CloseGroupValidator::validate_membership,CloseGroupValidator::validate_trust_weighted uses=check_normal,any_cfg,any_responses,any_trust,any_response,mk_validator,c15_harness tier=thorough panic=violation
+c15_harness!(c15_normal_mode_10, 13, check_normal(10));
+// @verif property=C15 class=bounded bound="witness sets of size 1, bft mode" fns=CloseGroupValidator::validate_membership uses=check_monotone,any_cfg,any_responses,any_trust,any_response,mk_validator,c15_harness tier=quick,thorough panic=violation
+c15_harness!(c15_monotone_bft_1, 4, check_monotone(1, true));
+// @verif property=C15 class=bounded bound="witness sets of size 1, normal mode" fns=CloseGroupValidator::validate_membership uses=check_monotone,any_cfg,any_responses,any_trust,any_response,mk_validator,c15_harness tier=quick,thorough panic=violation
+c15_harness!(c15_monotone_normal_1, 4, check_monotone(1, false));
+// @verif property=C15 class=bounded bound="witness sets of size 2, bft mode" fns=CloseGroupValidator::validate_membership uses=check_monotone,any_cfg,any_responses,any_trust,any_response,mk_validator,c15_harness tier=quick,thorough panic=violation
+c15_harness!(c15_monotone_bft_2, 5, check_monotone(2, true));
+// @verif property=C15 class=bounded bound="witness sets of size 2, normal mode" fns=CloseGroupValidator::validate_membership uses=check_monotone,any_cfg,any_responses,any_trust,any_response,mk_validator,c15_harness tier=quick,thorough panic=violation
+c15_harness!(c15_monotone_normal_2, 5, check_monotone(2, false));
+// @verif property=C15 class=bounded bound="witness sets of size 3, bft mode" fns=CloseGroupValidator::validate_membership uses=check_monotone,any_cfg,any_responses,any_trust,any_response,mk_validator,c15_harness tier=quick,thorough panic=violation
+c15_harness!(c15_monotone_bft_3, 6, check_monotone(3, true));
+// @verif property=C15 class=bounded bound="witness sets of size 3, normal mode" fns=CloseGroupValidator::validate_membership uses=check_monotone,any_cfg,any_responses,any_trust,any_response,mk_validator,c15_harness tier=quick,thorough panic=violation
+c15_harness!(c15_monotone_normal_3, 6, check_monotone(3, false));
+// @verif property=C15 class=bounded bound="witness sets of size 4, bft mode" fns=CloseGroupValidator::validate_membership uses=check_monotone,any_cfg,any_responses,any_trust,any_response,mk_validator,c15_harness tier=thorough panic=violation
+c15_harness!(c15_monotone_bft_4, 7, check_monotone(4, true));
+// @verif property=C15 class=bounded bound="witness sets of size 4, normal mode" fns=CloseGroupValidator::validate_membership uses=check_monotone,any_cfg,any_responses,any_trust,any_response,mk_validator,c15_harness tier=thorough panic=violation
+c15_harness!(c15_monotone_normal_4, 7, check_monotone(4, false));
+// @verif property=C15 class=bounded bound="witness sets of size 5, bft mode" fns=CloseGroupValidator::validate_membership uses=check_monotone,any_cfg,any_responses,any_trust,any_response,mk_validator,c15_harness tier=thorough panic=violation
+c15_harness!(c15_monotone_bft_5, 8, check_monotone(5, true));
+// @verif property=C15 class=bounded bound="witness sets of size 5, normal mode" fns=CloseGroupValidator::validate_membership uses=check_monotone,any_cfg,any_responses,any_trust,any_response,mk_validator,c15_harness tier=thorough panic=violation
+c15_harness!(c15_monotone_normal_5, 8, check_monotone(5, false));
+// @verif property=C15 class=bounded bound="witness sets of size 6, bft mode" fns=CloseGroupValidator::validate_membership uses=check_monotone,any_cfg,any_responses,any_trust,any_response,mk_validator,c15_harness tier=thorough panic=violation
+c15_harness!(c15_monotone_bft_6, 9, check_monotone(6, true));
+// @verif property=C15 class=bounded bound="witness sets of size 6, normal mode" fns=CloseGroupValidator::validate_membership uses=check_monotone,any_cfg,any_responses,any_trust,any_response,mk_validator,c15_harness tier=thorough panic=violation
+c15_harness!(c15_monotone_normal_6, 9, check_monotone(6, false));
+// @verif property=C15 class=bounded bound="witness sets of size 7, bft mode" fns=CloseGroupValidator::validate_membership uses=check_monotone,any_cfg,any_responses,any_trust,any_response,mk_validator,c15_harness tier=thorough panic=violation
+c15_harness!(c15_monotone_bft_7, 10, check_monotone(7, true));
+// @verif property=C15 class=bounded bound="witness sets of size 7, normal mode" fns=CloseGroupValidator::validate_membership uses=check_monotone,any_cfg,any_responses,any_trust,any_response,mk_validator,c15_harness tier=thorough panic=violation
+c15_harness!(c15_monotone_normal_7, 10, check_monotone(7, false));
+// @verif property=C15 class=bounded bound="witness sets of size 1, bft mode" fns=CloseGroupValidator::validate_membership uses=check_complete,any_cfg,any_responses,any_trust,any_response,mk_validator,c15_harness tier=quick,thorough panic=violation
+c15_harness!(c15_completeness_bft_1, 4, check_complete(1, true));
+// @verif property=C15 class=bounded bound="witness sets of size 1, normal mode" fns=CloseGroupValidator::validate_membership uses=check_complete,any_cfg,any_responses,any_trust,any_response,mk_validator,c15_harness tier=quick,thorough panic=violation
+c15_harness!(c15_completeness_normal_1, 4, check_complete(1, false));
+// @verif property=C15 class=bounded bound="witness sets of size 2, bft mode" fns=CloseGroupValidator::validate_membership uses=check_complete,any_cfg,any_responses,any_trust,any_response,mk_validator,c15_harness tier=thorough panic=violation
+c15_harness!(c15_completeness_bft_2, 5, check_complete(2, true));
+// @verif property=C15 class=bounded bound="witness sets of size 2, normal mode" fns=CloseGroupValidator::validate_membership uses=check_complete,any_cfg,any_responses,any_trust,any_response,mk_validator,c15_harness tier=thorough panic=violation
+c15_harness!(c15_completeness_normal_2, 5, check_complete(2, false));
+// @verif property=C15 class=bounded bound="witness sets of size 3, bft mode" fns=CloseGroupValidator::validate_membership uses=check_complete,any_cfg,any_responses,any_trust,any_response,mk_validator,c15_harness tier=quick,thorough panic=violation
+c15_harness!(c15_completeness_bft_3, 6, check_complete(3, true));
+// @verif property=C15 class=bounded bound="witness sets of size 3, normal mode" fns=CloseGroupValidator::validate_membership uses=check_complete,any_cfg,any_responses,any_trust,any_response,mk_validator,c15_harness tier=quick,thorough panic=violation
+c15_harness!(c15_completeness_normal_3, 6, check_complete(3, false));
+// @verif property=C15 class=bounded bound="witness sets of size 4, bft mode" fns=CloseGroupValidator::validate_membership uses=check_complete,any_cfg,any_responses,any_trust,any_response,mk_validator,c15_harness tier=quick,thorough panic=violation
+c15_harness!(c15_completeness_bft_4, 7, check_complete(4, true));
+// @verif property=C15 class=bounded bound="witness sets of size 4, normal mode" fns=CloseGroupValidator::validate_membership uses=check_complete,any_cfg,any_responses,any_trust,any_response,mk_validator,c15_harness tier=quick,thorough panic=violation
+c15_harness!(c15_completeness_normal_4, 7, check_complete(4, false));
+// @verif property=C15 class=bounded bound="witness sets of size 5, bft mode" fns=CloseGroupValidator::validate_membership uses=check_complete,any_cfg,any_responses,any_trust,any_response,mk_validator,c15_harness tier=thorough panic=violation
+c15_harness!(c15_completeness_bft_5, 8, check_complete(5, true));
+// @verif property=C15 class=bounded bound="witness sets of size 5, normal mode" fns=CloseGroupValidator::validate_membership uses=check_complete,any_cfg,any_responses,any_trust,any_response,mk_validator,c15_harness tier=thorough panic=violation
+c15_harness!(c15_completeness_normal_5, 8, check_complete(5, false));
+// @verif property=C15 class=bounded bound="witness sets of size 6, bft mode" fns=CloseGroupValidator::validate_membership uses=check_complete,any_cfg,any_responses,any_trust,any_response,mk_validator,c15_harness tier=thorough panic=violation
+c15_harness!(c15_completeness_bft_6, 9, check_complete(6, true));
+// @verif property=C15 class=bounded bound="witness sets of size 6, normal mode" fns=CloseGroupValidator::validate_membership uses=check_complete,any_cfg,any_responses,any_trust,any_response,mk_validator,c15_harness tier=thorough panic=violation
+c15_harness!(c15_completeness_normal_6, 9, check_complete(6, false));
+// @verif property=C15 class=bounded bound="witness sets of size 7, bft mode" fns=CloseGroupValidator::validate_membership uses=check_complete,any_cfg,any_responses,any_trust,any_response,mk_validator,c15_harness tier=thorough panic=violation
+c15_harness!(c15_completeness_bft_7, 10, check_complete(7, true));
+// @verif property=C15 class=bounded bound="witness sets of size 7, normal mode" fns=CloseGroupValidator::validate_membership uses=check_complete,any_cfg,any_responses,any_trust,any_response,mk_validator,c15_harness tier=thorough panic=violation
+c15_harness!(c15_completeness_normal_7, 10, check_complete(7, false));
+// @verif property=C15 class=bounded bound="witness sets of size 8, bft mode" fns=CloseGroupValidator::validate_membership uses=check_complete,any_cfg,any_responses,any_trust,any_response,mk_validator,c15_harness tier=thorough panic=violation
+c15_harness!(c15_completeness_bft_8, 11, check_complete(8, true));
+// @verif property=C15 class=bounded bound="witness sets of size 8, normal mode" fns=CloseGroupValidator::validate_membership uses=check_complete,any_cfg,any_responses,any_trust,any_response,mk_validator,c15_harness tier=thorough panic=violation
+c15_harness!(c15_completeness_normal_8, 11, check_complete(8, false));
+// @verif property=C15 class=bounded bound="witness sets of size 9, bft mode" fns=CloseGroupValidator::validate_membership uses=check_complete,any_cfg,any_responses,any_trust,any_response,mk_validator,c15_harness tier=thorough panic=violation
+c15_harness!(c15_completeness_bft_9, 12, check_complete(9, true));
+// @verif property=C15 class=bounded bound="witness sets of size 9, normal mode" fns=CloseGroupValidator::validate_membership uses=check_complete,any_cfg,any_responses,any_trust,any_response,mk_validator,c15_harness tier=thorough panic=violation
+c15_harness!(c15_completeness_normal_9, 12, check_complete(9, false));
+// @verif property=C15 class=bounded bound="witness sets of size 10, bft mode" fns=CloseGroupValidator::validate_membership uses=check_complete,any_cfg,any_responses,any_trust,any_response,mk_validator,c15_harness tier=thorough panic=violation
+c15_harness!(c15_completeness_bft_10, 13, check_complete(10, true));
+// @verif property=C15 class=bounded bound="witness sets of size 10, normal mode" fns=CloseGroupValidator::validate_membership uses=check_complete,any_cfg,any_responses,any_trust,any_response,mk_validator,c15_harness tier=thorough panic=violation
+c15_harness!(c15_completeness_normal_10, 13, check_complete(10, false));
+// @verif property=C15 class=bounded bound="0 witnesses, all latencies" fns=CloseGroupValidator::detect_collusion_indicators uses=check_collusion,any_responses,any_response,mk_validator,any_cfg,c15_collusion_harness tier=quick,thorough panic=violation
+c15_collusion_harness!(c15_collusion_contract_0, 4, 0);
+// @verif property=C15 class=bounded bound="2 witnesses, all latencies" fns=CloseGroupValidator::detect_collusion_indicators uses=check_collusion,any_responses,any_response,mk_validator,any_cfg,c15_collusion_harness tier=quick,thorough panic=violation
+c15_collusion_harness!(c15_collusion_contract_2, 6, 2);
+// @verif property=C15 class=bounded bound="3 witnesses, all latencies" fns=CloseGroupValidator::detect_collusion_indicators uses=check_collusion,any_responses,any_response,mk_validator,any_cfg,c15_collusion_harness tier=quick,thorough panic=violation
+c15_collusion_harness!(c15_collusion_contract_3, 7, 3);
+// @verif property=C15 class=bounded bound="4 witnesses, all latencies" fns=CloseGroupValidator::detect_collusion_indicators uses=check_collusion,any_responses,any_response,mk_validator,any_cfg,c15_collusion_harness tier=quick,thorough panic=violation
+c15_collusion_harness!(c15_collusion_contract_4, 8, 4);
+// @verif property=C15 class=bounded bound="5 witnesses, all latencies" fns=CloseGroupValidator::detect_collusion_indicators uses=check_collusion,any_responses,any_response,mk_validator,any_cfg,c15_collusion_harness tier=thorough panic=violation
+c15_collusion_harness!(c15_collusion_contract_5, 9, 5);
+// @verif property=C15 class=bounded bound="6 witnesses, all latencies" fns=CloseGroupValidator::detect_collusion_indicators uses=check_collusion,any_responses,any_response,mk_validator,any_cfg,c15_collusion_harness tier=thorough panic=violation
+c15_collusion_harness!(c15_collusion_contract_6, 10, 6);
+// @verif property=C15 class=bounded bound="7 witnesses, all latencies" fns=CloseGroupValidator::detect_collusion_indicators uses=check_collusion,any_responses,any_response,mk_validator,any_cfg,c15_collusion_harness tier=thorough panic=violation
+c15_collusion_harness!(c15_collusion_contract_7, 11, 7);
 
 // ---- MaintenanceConfig quorum arithmetic --------------------------------------------------
 // @verif property=C15 class=complete fns=MaintenanceConfig::required_confirmations,MaintenanceConfig::minimum_witnesses tier=quick,thorough panic=violation
